@@ -177,7 +177,30 @@ func faultedStreams(base []byte, rng *splitmix, maxExhaustive int, samples int, 
 			i, j := rng.intn(len(lines)), rng.intn(len(lines))
 			var out []string
 			kind := ""
-			switch rng.intn(4) {
+			switch rng.intn(5) {
+			case 4:
+				// the same width written with another recipe: k>=9 blanks as a tab and k-8 blanks, two or more
+				// tabs with the last one as 8 blanks - tabs AND spaces in one indentation, at the block's own level
+				kind = "mix_same_width"
+				out = append([]string{}, lines...)
+				for tries := 0; tries < len(lines); tries++ {
+					k := (i + tries) % len(lines)
+					body := strings.TrimLeft(out[k], " \t")
+					ws := out[k][:len(out[k])-len(body)]
+					if strings.TrimSpace(body) == "" {
+						continue
+					}
+					if !strings.Contains(ws, "\t") && len(ws) >= 9 {
+						out[k] = "\t" + ws[8:] + body
+						i = k
+						break
+					}
+					if !strings.Contains(ws, " ") && len(ws) >= 2 {
+						out[k] = ws[:len(ws)-1] + "        " + body
+						i = k
+						break
+					}
+				}
 			case 0:
 				kind = "swap_lines"
 				out = append([]string{}, lines...)
